@@ -498,8 +498,10 @@ fn lane_run(ctx: &Ctx, known: &[KnownFinding]) -> LaneReport {
                 }
                 .into(),
                 split_writes: (r >> 33) % 2 == 0,
-                build: if round == 0 { (i % 5) as u8 } else { ((r >> 40) % 5) as u8 },
-                url_tail: if round == 0 { ((i / 5) % 4) as u8 } else { ((r >> 44) % 4) as u8 },
+                // (15 cells per verification x certificate block: shift by the block number so that every position
+                // of a block meets every build variant / URL tail across the blocks of the first round)
+                build: if round == 0 { ((i + i / 15) % 5) as u8 } else { ((r >> 40) % 5) as u8 },
+                url_tail: if round == 0 { ((i / 5 + i / 15) % 4) as u8 } else { ((r >> 44) % 4) as u8 },
             };
             let t0 = std::time::Instant::now();
             eval_case(&mut rep, known, &c, |obs| check(&c, obs));
